@@ -56,6 +56,7 @@ def boundary_functional(g, full, term, coef, udir=None, measure='exact'):
 
 def telescoping(case, rng, cls, faces, meta, g, m):
     cov, maxerr, bad = {}, {}, []
+    TOL = 1e-9 + 64 * np.finfo(float).eps * g.cond()      # V * (1/V-like factors): differences of large face positions cancel to eps*cond
     rows = interior_index(g.dims)
     V = np.asarray(m.cellvolume, dtype=float).ravel()
     term = case['term']
